@@ -115,11 +115,15 @@ inline MCmp mcmp_like(const C &c) {
 
 /// After an injected fault the sets must be consistent (checked by observe() and the ledgers); the models are
 /// re-read from them (basic guarantee: contents unspecified but valid) so that exploration continues from there.
+/// the FULL fixed-capacity vector under a FlatSet refused an insertion (std::out_of_range): like an injected fault, the
+/// set must stay a valid set (checked by the observers after the model has been re-read from it)
+inline bool capfault() { return kFixedCap > 0 && W().exc && W().exc_kind == 1; }
+
 /// C09: after a failed merge the SOURCE is a container like any other: consistent size, every visible element alive and
 /// not moved-from
 template <class SetT>
 inline void chk_source_after_fault(const SetT &t, const char *nm) {
-  if (!faulted()) return;
+  if (!faulted() && !capfault()) return;
   long n = 0;
   for (auto it = t.begin(); it != t.end() && n < 64; ++it, ++n) {
     const char *why = nullptr;
@@ -150,7 +154,7 @@ inline void apply(World &w, const Op &op) {
   auto upd_big = [&](int x) {
     if ((int)w.m[x]->size() > N) w.big[x] = true;
   };
-#define FCHK if (faulted()) goto fault_done
+#define FCHK if (faulted() || capfault()) goto fault_done
   g_cur_fault = op.f;
   auto unexpected = [&] {
     if (W().exc) vf::fail(PT(), "%s: unexpected exception (kind %d)", nm, W().exc_kind);
@@ -499,6 +503,20 @@ inline void apply(World &w, const Op &op) {
       chk_noalloc(!big0 && !tbig && !w.big[i], nm);
 #endif
     } break;
+    case SELF_COPY_ASSIGN:
+    case SELF_SWAP:
+    case SELF_MERGE: {
+      // the set as its own operand: nothing changes (std::set: self copy assignment and self swap are no-ops, and no
+      // element of a set can be transferred into the set that already holds it)
+      win([&] {
+        S &self = SS;
+        if (op.k == SELF_COPY_ASSIGN) SS = static_cast<const S &>(self);
+        else if (op.k == SELF_SWAP) SS.swap(self);
+        else SS.merge(self);
+      });
+      FCHK; unexpected();
+      chk_noalloc(!big0, nm);
+    } break;
     case SWAP_MEMBER:
     case SWAP_FREE: {
       const int j = op.j;
@@ -681,7 +699,25 @@ inline void apply(World &w, const Op &op) {
       break;
   }
 fault_done:
-  if (faulted()) fault_epilogue(w);
+  if (capfault() && !faulted()) {
+    // legitimate only when the vector really was asked for one element too many; a single-element insertion is checked
+    // exactly: the set was full, the key absent, and the failed call left the set as it was
+    int key = -2;
+    switch (op.k) {
+      case INSERT_C: case INSERT_M: case EMPLACE: case NODE_FROM_TEMP: case NODE_FROM_TEMP_HINT: key = op.a; break;
+      case HINT_C: case HINT_M: case EMPLACE_HINT: key = op.b; break;
+      case EXTRACT_KEY_INS: case EXTRACT_POS_INS: case EXTRACT_KEY_INS_HINT: case EMPTY_NODE_INS: case ERASE_KEY: case ERASE_POS: case ERASE_RANGE:
+      case CLEAR: case ERASE_LOOP: case ERASE_IF: case SWAP_MEMBER: case SWAP_FREE: case COPY_ASSIGN: case MOVE_ASSIGN: case COPY_CONSTRUCT:
+      case MOVE_CONSTRUCT: case SHRINK: case STEAL_VECTOR: key = -3; break;
+      default: break;
+    }
+    if (key == -3) vf::fail(PT(), "%s: std::out_of_range from an operation that adds no element", nm);
+    else if (key >= 0) {
+      if (sz < kFixedCap || m.count(key)) vf::fail(PT(), "%s: std::out_of_range although the element fits (size %d of %d, key %s)", nm, sz, kFixedCap, m.count(key) ? "present" : "absent");
+      else if (seq_of(SS) != std::vector<int>(m.begin(), m.end())) vf::fail(PT(), "%s: the refused insertion changed the set", nm);
+    }
+  }
+  if (faulted() || capfault()) fault_epilogue(w);
   g_cur_fault = 0;
 #undef FCHK
 #undef SS
